@@ -25,10 +25,10 @@ impl Monitor for C07 {
         "cases = seeded conflict-poor universes (few constrains; unions, cycles, favored candidates that are not rank-first, random ranks, hints), run synchronously and under 3 async schedules with random activity parameters; whenever the reference first-choice closure satisfies the C07 precondition (closure valid, every requirement met only by its own first choice) the returned set must equal the closure. distinct = content hash; non-trivial = distinct case where the precondition holds and the closure has >= 3 solvables".into()
     }
     fn cases(&self, tier: Tier) -> u64 {
-        tier.pick(50_000, 2_500_000)
+        tier.pick(400_000, 8_000_000)
     }
     fn floor(&self, tier: Tier) -> u64 {
-        tier.pick(2_000, 100_000)
+        tier.pick(8_000, 80_000)
     }
     fn generate(&self, r: &mut Rng, _tier: Tier, _i: u64) -> SolverCase {
         let (name, cfg) = pick_family(r, FAMILIES);
